@@ -361,6 +361,18 @@ func stuckInLibrary(marker string) (string, string) {
 	return "", ""
 }
 
+// stuckInAppender reports whether the goroutine carrying the marker is sitting inside one of the harness's
+// gated/slow appenders with library frames above it on the stack: the library is running the appender on the
+// caller's goroutine.
+func stuckInAppender(marker string) (bool, string) {
+	for _, g := range strings.Split(goroutineDump(), "\n\n") {
+		if strings.Contains(g, marker) && libFrameRe.MatchString(g) && (strings.Contains(g, "main.(*VGate).") || strings.Contains(g, "main.(*VSlow).")) {
+			return true, g
+		}
+	}
+	return false, ""
+}
+
 // callWithWatchdog runs f in a goroutine (tagged by marker in its stack through the caller) and
 // waits up to d. Returns done=false when the watchdog fired, plus a goroutine dump.
 func callWithWatchdog(d time.Duration, f func()) (done bool, pv any, dump string) {
